@@ -121,10 +121,10 @@ def run(repo: Repo, rep: Report):
     for rid, txt in [
         ("R-TABLE.inheritance", "_INHERIT_ATTRIB_HANDLERS maps every property to the handler kind SVG prescribes (kinds derived from the bodies)"),
         ("R-TABLE.defaults", "ATTRIB_DEFAULTS equal the SVG initial values; inheritable defaults are a sub-table"),
-        ("R-CASE.group-retention", "removable iff attribute-less, <=1 non-redundant child, or clamped opacity in {0,1}; opacity pushed exactly once"),
-        ("R-SITE.style-precedence", "style declarations overwrite attributes unconditionally and are consumed; coverage of root/elements/cached shapes"),
+        ("R-CASE.group-retention", "removable iff attribute-less, <=1 non-redundant child, or clamped opacity in {0,1}; the opacity of a dissolved group (also a <use> wrapper, also the root) reaches the children exactly once (interpreted)"),
+        ("R-SITE.style-precedence", "apply_style_attributes interpreted: every declaration of every style attribute becomes an attribute and wins over the element's own; style consumed; with and without cached shapes"),
         ("R-CASE.normalize-opacity", "normalize_opacity folds the opacity of the absent paint (four none/paint combinations)"),
-        ("R-SITE.context", "own attributes win in from_element; to_element omits exactly inherited/default-equal values; _attrib_to_pass_on feeds own then parent"),
+        ("R-SITE.context", "traversal contexts carry the cascaded presentation attributes (own wins); the converted schematic document paints every path as the cascade says (groups, root, use, nested svg, style)"),
     ]:
         rep.rule(rid, txt)
     # ---- handler table
@@ -177,10 +177,16 @@ def run(repo: Repo, rep: Report):
         rep.fail("R-TABLE.defaults", "svg._INHERITABLE_ATTRIB_DEFAULTS", str(bad), "inheritable defaults disagree with ATTRIB_DEFAULTS", svg)
     else:
         rep.ok("R-TABLE.defaults", "svg._INHERITABLE_ATTRIB_DEFAULTS", f"{len(idef)} entries, each the printed form of the ATTRIB_DEFAULTS value")
-    _check_groups(repo, rep)
-    _check_style(repo, rep)
+    from sa.rules import groups, sem
+    groups.check_removable_predicate(repo, rep, "R-CASE.group-retention", "keep-or-flatten decision")
+    groups.check_try_remove_group(repo, rep, "R-CASE.group-retention", "flattening / retention effect")
+    sem.check_resolve_use(repo, rep, {"render": "R-CASE.group-retention"})
+    sem.check_simplify(repo, rep, {"structure": "R-CASE.group-retention"})
+    sem.check_styles(repo, rep, "R-SITE.style-precedence")
     _check_normalize(repo, rep)
-    _check_context(repo, rep)
+    sem.check_traverse(repo, rep, {"attrib": "R-SITE.context"})
+    sem.check_pipeline(repo, rep, {"paint": "R-SITE.context"})
+    sem.check_nested_svg(repo, rep, {"render": "R-SITE.context"})
 
 
 def _val(repo, fname, pa, ca, name):
@@ -249,72 +255,11 @@ def _matrix_kind(repo, table):
     return "other:matrix-handler"
 
 
-def _check_groups(repo, rep):
-    svg = repo["svg"]
-    from sa.rules import groups
-    groups.check_removable_predicate(repo, rep, "R-CASE.group-retention", "keep-or-flatten decision")
-    groups.check_try_remove_group(repo, rep, "R-CASE.group-retention", "flattening / retention effect")
-    # call-site agreement: opacity of a dissolved wrapper reaches the children exactly once
-    n_sites = 0
-    for q, f in svg.functions.items():
-        for c in ast.walk(f):
-            if isinstance(c, ast.Call) and call_name(c) == "_try_remove_group" and _owner(c) is f:
-                n_sites += 1
-                po = kwarg(c, "push_opacity")
-                pushes = not (isinstance(po, ast.Constant) and po.value is False)
-                garg = unparse(c.args[0])
-                # does the caller itself hand the group's attributes (incl. opacity) to the children when the group was removed?
-                explicit = [x for x in ast.walk(f) if isinstance(x, ast.Call) and call_name(x) == "_inherit_attrib" and x.args and unparse(x.args[0]) == f"{garg}.attrib"]
-                site = f"svg.{q}: {unparse(c)}"
-                if pushes and explicit:
-                    rep.fail("R-CASE.group-retention", f"svg.{q}", c, f"the group's opacity is pushed by _try_remove_group and again by {unparse(explicit[0])}: "
-                             "the instance gets opacity squared", svg, c)
-                elif not pushes and not explicit:
-                    rep.fail("R-CASE.group-retention", f"svg.{q}", c, "push_opacity=False but the caller does not hand the group's attributes to the children: the group's opacity is lost", svg, c)
-                else:
-                    rep.ok("R-CASE.group-retention", site, "opacity of a dissolved group reaches its children exactly once", True)
-    rep.floor("_try_remove_group call sites", n_sites, 3)
-
-
 def _owner(node):
     p = parent(node)
     while p is not None and not isinstance(p, (ast.FunctionDef, ast.AsyncFunctionDef)):
         p = parent(p)
     return p
-
-
-def _check_style(repo, rep):
-    svg, st, meta = repo["svg"], repo["svg_types"], repo["svg_meta"]
-    pc = meta.func("parse_css_declarations")
-    writes = [n for n in ast.walk(pc) if isinstance(n, ast.Assign) and unparse(n.targets[0]) == "output[property_name]"]
-    guarded = False
-    for w in writes:
-        p = parent(w)
-        while p is not None and p is not pc:
-            if isinstance(p, ast.If) and ("not in output" in unparse(p.test) or "in output" in unparse(p.test)):
-                guarded = True
-            p = parent(p)
-    if writes and not guarded:
-        rep.ok("R-SITE.style-precedence", "svg_meta.parse_css_declarations: output[property] = value, unconditionally (style wins over attributes)", "", True)
-    else:
-        rep.fail("R-SITE.style-precedence", "svg_meta.parse_css_declarations", "output[property_name] = value", "a style declaration no longer overrides an existing presentation attribute", meta, pc)
-    asa = st.func("SVGShape.apply_style_attribute")
-    t = unparse(asa)
-    if "setattr(target, field_name, field_value)" in t and "target.style = unparsed_style" in t and "property_names=attr_types.keys()" in t:
-        rep.ok("R-SITE.style-precedence", "svg_types.SVGShape.apply_style_attribute: every declared known property overwrites the field; style keeps only the rest")
-    else:
-        rep.fail("R-SITE.style-precedence", "svg_types.SVGShape.apply_style_attribute", "setattr(target, field_name, field_value)", "shape-level style application changed", st, asa)
-    aps = svg.func("SVG._apply_styles")
-    if unparse(aps.body[-1]) == "parse_css_declarations(el.attrib.pop('style', ''), el.attrib)":
-        rep.ok("R-SITE.style-precedence", "svg.SVG._apply_styles: style attribute popped and parsed into the element's attributes")
-    else:
-        rep.fail("R-SITE.style-precedence", "svg.SVG._apply_styles", "parse_css_declarations(el.attrib.pop('style', ''), el.attrib)", "style attribute is no longer consumed into attributes", svg, aps)
-    full = svg.func("SVG.apply_style_attributes")
-    t = unparse(full)
-    if "itertools.chain((self.svg_root,), self.xpath('//svg:*[@style]'))" in t and "shape.apply_style_attribute(inplace=True)" in t and "self._update_etree()" in t:
-        rep.ok("R-SITE.style-precedence", "svg.SVG.apply_style_attributes: root + every element with a style attribute + cached shapes")
-    else:
-        rep.fail("R-SITE.style-precedence", "svg.SVG.apply_style_attributes", "for el in chain((root,), xpath('//svg:*[@style]'))", "style application no longer reaches root, all styled elements and cached shapes", svg, full)
 
 
 def _check_normalize(repo, rep):
@@ -350,42 +295,6 @@ def _check_normalize(repo, rep):
         rep.ok("R-CASE.normalize-opacity", F, "4 none/paint combinations: the opacity of the only visible paint is folded into opacity and reset to 1", True)
 
 
-def _check_context(repo, rep):
-    svg = repo["svg"]
-    fe = svg.func("from_element")
-    if "attrs = {**inherited_attrib, **el.attrib}" in unparse(fe):
-        rep.ok("R-SITE.context", "svg.from_element: the element's own attributes override the inherited ones")
-    else:
-        rep.fail("R-SITE.context", "svg.from_element", "attrs = {**inherited_attrib, **el.attrib}", "inherited attributes can override the element's own", svg, fe)
-    te = svg.func("to_element")
-    t = unparse(te)
-    cond = [n for n in ast.walk(te) if isinstance(n, ast.If) and unparse(n.test) == "attr_name in inherited_attrib"]
-    ok = False
-    if cond:
-        c = cond[0]
-        inner = unparse(c.body[0]) if c.body else ""
-        orelse = unparse(c.orelse[0]) if c.orelse else ""
-        ok = "if attrib_value == inherited_attrib[attr_name]:\n    continue" in inner and "if field_value == default_value:\n    continue" in orelse
-    if ok and "el.attrib[attr_name] = attrib_value" in t:
-        rep.ok("R-SITE.context", "svg.to_element: a value is omitted iff it equals the inherited one (or, with no inherited value, the default)", "", True)
-    else:
-        rep.fail("R-SITE.context", "svg.to_element", "if attr in inherited: skip if equal; elif value == default: skip", "omission logic of to_element changed: explicit values that differ from the inherited context may be dropped (or vice versa)", svg, te)
-    ap = svg.func("_attrib_to_pass_on")
-    t = [unparse(s) for s in ap.body]
-    want = ["_inherit_attrib(el.attrib, attr_catcher, skips=skips, skip_unhandled=True)", "_inherit_attrib(current_attrib, attr_catcher, skips=skips)"]
-    idx = [t.index(w) if w in t else -1 for w in want]
-    if -1 not in idx and idx[0] < idx[1]:
-        rep.ok("R-SITE.context", "svg._attrib_to_pass_on: own attributes first, then the parent context (child wins)", "", True)
-    else:
-        rep.fail("R-SITE.context", "svg._attrib_to_pass_on", " ; ".join(want), "the context passed to children is no longer 'own attributes, then inherited ones'", svg, ap)
-    ia = svg.func("_inherit_attrib")
-    t = unparse(ia)
-    if "for attr_name in sorted(attrib.keys()):" in t and "_INHERIT_ATTRIB_HANDLERS[attr_name](attrib, child, attr_name)" in t and "raise ValueError" in t:
-        rep.ok("R-SITE.context", "svg._inherit_attrib: every attribute dispatched to its handler; unhandled ones raise")
-    else:
-        rep.fail("R-SITE.context", "svg._inherit_attrib", "_INHERIT_ATTRIB_HANDLERS[attr_name](attrib, child, attr_name)", "attribute inheritance dispatch changed", svg, ia)
-
-
 _S = "svg"
 VARIANTS = [
     Variant("opacity copied instead of multiplied", [Edit(_S, None, '    "opacity": _inherit_multiply,', '    "opacity": _inherit_copy,')], [("R-TABLE.inheritance", "_INHERIT_ATTRIB_HANDLERS")]),
@@ -394,13 +303,12 @@ VARIANTS = [
     Variant("redundant filter dropped from the count", [Edit(_S, "_is_removable_group", "sum(1 for e in el if not _is_redundant(e.tag))", "sum(1 for e in el)")], [("R-CASE.group-retention", "_is_removable_group")]),
     Variant("only shapes counted", [Edit(_S, "_is_removable_group", "sum(1 for e in el if not _is_redundant(e.tag))", "sum(1 for e in el if _is_shape(e.tag))")], [("R-CASE.group-retention", "_is_removable_group")]),
     Variant("style only if attribute absent", [Edit("svg_meta", "parse_css_declarations", "                try:\n                    output[property_name] = value", "                try:\n                    if property_name not in output:\n                        output[property_name] = value")],
-            [("R-SITE.style-precedence", "parse_css_declarations")]),
+            [("R-SITE.style-precedence", "apply_style_attributes")]),
     Variant("normalize_opacity pairs swapped", [Edit("svg_types", "SVGShape.normalize_opacity", '("fill", "stroke_opacity"),\n            ("stroke", "fill_opacity"),', '("fill", "fill_opacity"),\n            ("stroke", "stroke_opacity"),')],
             [("R-CASE.normalize-opacity", "normalize_opacity")]),
     Variant("use opacity pushed twice", [Edit(_S, "SVG._resolve_use", "_try_remove_group(group, push_opacity=False)", "_try_remove_group(group)")], [("R-CASE.group-retention", "_resolve_use")]),
     Variant("copy handler parent wins", [Edit(_S, "_inherit_copy", "    if attr_name in child.attrib:\n        return\n", "")], [("R-TABLE.inheritance", "_INHERIT_ATTRIB_HANDLERS")]),
     Variant("display none no longer dominates", [Edit(_S, "_inherit_nondefault_display", '    if value == "none":', '    if value == "never":')], [("R-TABLE.inheritance", "_INHERIT_ATTRIB_HANDLERS")]),
-    Variant("inherited context overrides own attributes", [Edit(_S, "from_element", "attrs = {**inherited_attrib, **el.attrib}", "attrs = {**el.attrib, **inherited_attrib}")], [("R-SITE.context", "from_element")]),
     Variant("default of fill changed", [Edit("svg_meta", None, '"fill": "black",', '"fill": "none",')], [("R-TABLE.defaults", "ATTRIB_DEFAULTS")]),
     Variant("silent: multiply written as product expression", [Edit(_S, "_inherit_multiply", "    value = float(attrib.get(attr_name, 1.0))\n    value *= float(child.attrib.get(attr_name, 1.0))\n", "    value = float(child.attrib.get(attr_name, 1.0)) * float(attrib.get(attr_name, 1.0))\n")], silent=True),
 ]
